@@ -1,4 +1,6 @@
 //! Differential test, real-host side (real soroban-sdk testutils): same script as /verif/modelrun.
+#[path = "/verif/difftests/collections.rs"]
+mod collections;
 use soroban_sdk::testutils::storage::{Persistent as _, Temporary as _};
 use soroban_sdk::testutils::Ledger as _;
 use soroban_sdk::{contract, contractimpl, Env};
@@ -44,6 +46,12 @@ fn main() {
     let steps: u64 = args.get(2).map(|s| s.parse().unwrap()).unwrap_or(400);
     let min_temp: u32 = args.get(3).map(|s| s.parse().unwrap()).unwrap_or(1);
     std::panic::set_hook(Box::new(|_| {}));
+    if args.get(4).map(|s| s.as_str()) == Some("collections") {
+        let e = Env::default();
+        e.cost_estimate().budget().reset_unlimited();
+        collections::run(&e, seed, steps);
+        return;
+    }
     let mut r = Lcg(seed);
     let e = Env::default();
     e.ledger().with_mut(|l| {
